@@ -541,7 +541,9 @@ class IOSupport:
 
     # TODO: use built-in function for extracting ref seq
     def check_sites_are_canonical(self, read_introns, gene_info, strand):
-        for intron in read_introns:
+        for read_intron in read_introns:
+            # the answer depends on the strand, keep it in the key
+            intron = (read_intron[0], read_intron[1], strand)
             if intron not in gene_info.canonical_sites:
                 intron_left_pos = intron[0] - gene_info.all_read_region_start
                 intron_right_pos = intron[1] - gene_info.all_read_region_start
